@@ -50,6 +50,9 @@ struct SchedState {
     /// incremented at every scheduling point and job completion
     progress: u64,
     foreign_blocks: u64,
+    lib_threads_created: u64,
+    lib_threads_finished: u64,
+    lib_rng: Rng,
 }
 
 struct Sched {
@@ -140,6 +143,128 @@ fn thread_blocked_in_syscall(tid: i64) -> bool {
     [202, 35, 230, 7, 271, 23, 270, 232, 281, 61, 247, 34].contains(&nr)
 }
 
+// ---------------------------------------------------------------------------------------
+// threads the code under test creates itself
+//
+// The library creates no threads today.  A change that makes it (a thread per file, a helper
+// pool) must not escape the simulator: `pthread_create` from inside a job is intercepted, the
+// new thread is held at a gate, and it is released — one at a time, in an order decided by the
+// scenario's seed — when its creator joins it or when the watchdog finds the job's running
+// thread asleep (e.g. at the end of a thread scope).  Completion order of such threads is
+// therefore a function of the seed, and replays.
+// ---------------------------------------------------------------------------------------
+
+struct LibThread {
+    owner: usize,
+    ordinal: u32,
+    gate: Mutex<bool>,
+    gate_cv: Condvar,
+    released: std::sync::atomic::AtomicBool,
+    done: std::sync::atomic::AtomicBool,
+    tid: std::sync::atomic::AtomicI64,
+    pthread: std::sync::atomic::AtomicU64,
+    start: extern "C" fn(*mut libc::c_void) -> *mut libc::c_void,
+    arg: usize,
+}
+
+static LIB_THREADS: Mutex<Vec<Arc<LibThread>>> = Mutex::new(Vec::new());
+
+type PthreadCreateFn = unsafe extern "C" fn(*mut libc::pthread_t, *const libc::pthread_attr_t, extern "C" fn(*mut libc::c_void) -> *mut libc::c_void, *mut libc::c_void) -> libc::c_int;
+type PthreadJoinFn = unsafe extern "C" fn(libc::pthread_t, *mut *mut libc::c_void) -> libc::c_int;
+
+unsafe fn real_pthread_create() -> PthreadCreateFn {
+    std::mem::transmute(libc::dlsym(libc::RTLD_NEXT, b"pthread_create\0".as_ptr() as *const libc::c_char))
+}
+unsafe fn real_pthread_join() -> PthreadJoinFn {
+    std::mem::transmute(libc::dlsym(libc::RTLD_NEXT, b"pthread_join\0".as_ptr() as *const libc::c_char))
+}
+
+extern "C" fn lib_thread_wrapper(arg: *mut libc::c_void) -> *mut libc::c_void {
+    let lt: Arc<LibThread> = unsafe { Arc::from_raw(arg as *const LibThread) };
+    // the new thread acts on behalf of the job that created it
+    ME.with(|m| m.set(lt.owner));
+    lt.tid.store(unsafe { libc::syscall(libc::SYS_gettid) } as i64, std::sync::atomic::Ordering::SeqCst);
+    {
+        let mut open = lt.gate.lock().unwrap();
+        while !*open {
+            open = lt.gate_cv.wait(open).unwrap();
+        }
+    }
+    let r = (lt.start)(lt.arg as *mut libc::c_void);
+    lt.done.store(true, std::sync::atomic::Ordering::SeqCst);
+    if let Some(s) = SCHED.get() {
+        if let Ok(mut st) = s.m.lock() {
+            st.progress += 1;
+            st.lib_threads_finished += 1;
+        }
+        s.cv.notify_all();
+    }
+    r
+}
+
+fn release_lib_thread(lt: &LibThread) {
+    lt.released.store(true, std::sync::atomic::Ordering::SeqCst);
+    let mut open = lt.gate.lock().unwrap();
+    *open = true;
+    lt.gate_cv.notify_all();
+}
+
+#[no_mangle]
+pub unsafe extern "C" fn pthread_create(
+    thread: *mut libc::pthread_t,
+    attr: *const libc::pthread_attr_t,
+    start: extern "C" fn(*mut libc::c_void) -> *mut libc::c_void,
+    arg: *mut libc::c_void,
+) -> libc::c_int {
+    let me = ME.with(|m| m.get());
+    if me == usize::MAX || simlibc::current().is_null() {
+        return real_pthread_create()(thread, attr, start, arg);
+    }
+    let ordinal = {
+        let reg = LIB_THREADS.lock().unwrap();
+        reg.iter().filter(|l| l.owner == me).count() as u32
+    };
+    let lt = Arc::new(LibThread {
+        owner: me,
+        ordinal,
+        gate: Mutex::new(false),
+        gate_cv: Condvar::new(),
+        released: std::sync::atomic::AtomicBool::new(false),
+        done: std::sync::atomic::AtomicBool::new(false),
+        tid: std::sync::atomic::AtomicI64::new(0),
+        pthread: std::sync::atomic::AtomicU64::new(0),
+        start,
+        arg: arg as usize,
+    });
+    let raw = Arc::into_raw(lt.clone()) as *mut libc::c_void;
+    let r = real_pthread_create()(thread, attr, lib_thread_wrapper, raw);
+    if r != 0 {
+        drop(Arc::from_raw(raw as *const LibThread));
+        return r;
+    }
+    lt.pthread.store(*thread as u64, std::sync::atomic::Ordering::SeqCst);
+    LIB_THREADS.lock().unwrap().push(lt);
+    if let Some(s) = SCHED.get() {
+        if let Ok(mut st) = s.m.lock() {
+            st.lib_threads_created += 1;
+        }
+    }
+    r
+}
+
+#[no_mangle]
+pub unsafe extern "C" fn pthread_join(thread: libc::pthread_t, retval: *mut *mut libc::c_void) -> libc::c_int {
+    // joining a held thread releases it (the creator sleeps in the join meanwhile)
+    let held: Option<Arc<LibThread>> = {
+        let reg = LIB_THREADS.lock().unwrap();
+        reg.iter().find(|l| l.pthread.load(std::sync::atomic::Ordering::SeqCst) == thread as u64 && !l.released.load(std::sync::atomic::Ordering::SeqCst)).cloned()
+    };
+    if let Some(lt) = held {
+        release_lib_thread(&lt);
+    }
+    real_pthread_join()(thread, retval)
+}
+
 fn canary_fingerprint() -> String {
     let mut set: HashSet<u32> = HashSet::new();
     for i in 0..24u32 {
@@ -154,7 +279,14 @@ fn run_program(p: &Program) -> (String, Vec<String>, Vec<String>, String) {
     let sources: Vec<(String, Option<PathBuf>)> = p
         .files
         .iter()
-        .map(|f| (f.text.clone(), Some(src_dir.join(&f.path))))
+        .map(|f| {
+            let path = match p.path_mode.as_str() {
+                "none" => None,
+                "same" => Some(src_dir.join("module.mamba")),
+                _ => Some(src_dir.join(&f.path)),
+            };
+            (f.text.clone(), path)
+        })
         .collect();
     let args = mamba::PipelineArguments { annotate: p.annotate };
     PANIC_MSG.with(|m| m.borrow_mut().clear());
@@ -218,6 +350,13 @@ fn sim_thread(t: usize, s: Arc<Sched>, keep_log: bool) {
         };
         st.results.push(res);
         st.progress += 1;
+        {
+            let mut reg = LIB_THREADS.lock().unwrap();
+            for l in reg.iter().filter(|l| l.owner == t && !l.released.load(std::sync::atomic::Ordering::SeqCst)) {
+                release_lib_thread(l);
+            }
+            reg.retain(|l| l.owner != t);
+        }
         st.ctxs[t] = 0;
         st.runnable.retain(|&x| x != t);
         if st.running == Some(t) {
@@ -266,6 +405,9 @@ pub fn exec_jobs(sc: &C12Scenario, keep_log: bool) -> JobsResult {
             blocked: vec![false; nthreads],
             progress: 0,
             foreign_blocks: 0,
+            lib_threads_created: 0,
+            lib_threads_finished: 0,
+            lib_rng: Rng::new(0),
         }),
         cv: Condvar::new(),
     });
@@ -286,6 +428,7 @@ pub fn exec_jobs(sc: &C12Scenario, keep_log: bool) -> JobsResult {
         let mut st = sched.m.lock().unwrap();
         st.round = ri;
         st.rng = Rng::new(round.interleave_seed);
+        st.lib_rng = Rng::new(round.jobs.iter().fold(ri as u64, |a, j| a.wrapping_mul(31).wrapping_add(sc.threads[j.thread].hash_seed)));
         st.switch_permille = round.switch_permille;
         st.runnable.clear();
         for p in st.preempt.iter_mut() {
@@ -336,10 +479,35 @@ pub fn exec_jobs(sc: &C12Scenario, keep_log: bool) -> JobsResult {
                     watched = Some(r);
                     sleeping_polls = 0;
                 }
-                if thread_blocked_in_syscall(st.tids[r]) {
+                // the entity that currently runs on behalf of job r: a released, unfinished
+                // thread the job created itself, else the job's own thread
+                let (entity_tid, held): (i64, Vec<Arc<LibThread>>) = {
+                    let reg = LIB_THREADS.lock().unwrap();
+                    let mine: Vec<Arc<LibThread>> = reg.iter().filter(|l| l.owner == r).cloned().collect();
+                    let running = mine
+                        .iter()
+                        .find(|l| l.released.load(std::sync::atomic::Ordering::SeqCst) && !l.done.load(std::sync::atomic::Ordering::SeqCst))
+                        .map(|l| l.tid.load(std::sync::atomic::Ordering::SeqCst));
+                    let held: Vec<Arc<LibThread>> = mine.into_iter().filter(|l| !l.released.load(std::sync::atomic::Ordering::SeqCst)).collect();
+                    (running.unwrap_or(st.tids[r]), held)
+                };
+                if thread_blocked_in_syscall(entity_tid) {
                     sleeping_polls += 1;
                 } else {
                     sleeping_polls = 0;
+                }
+                if sleeping_polls >= 20 && !held.is_empty() {
+                    // the job sleeps (end of a thread scope, a channel receive) while threads it
+                    // created are held: release one — in creation order under the canonical hash
+                    // seed 0, else a seeded choice
+                    sleeping_polls = 0;
+                    let canonical = sc.threads[r].hash_seed == 0;
+                    let mut sorted = held.clone();
+                    sorted.sort_by_key(|l| l.ordinal);
+                    let k = if canonical { 0 } else { st.lib_rng.below(sorted.len() as u64) as usize };
+                    st.trace.push(format!("{r}:lib{}", sorted[k].ordinal));
+                    release_lib_thread(&sorted[k]);
+                    continue;
                 }
                 // 200 ms asleep in a blocking call without reaching a scheduling point; when no
                 // other job could run instead (that would be a deadlock verdict) wait 2 s
@@ -361,7 +529,7 @@ pub fn exec_jobs(sc: &C12Scenario, keep_log: bool) -> JobsResult {
                         let trace = st.trace.clone();
                         drop(st);
                         simlibc::set_current(std::ptr::null_mut());
-                        let mut out = JobsResult { jobs: results, interleaving_digest: digest_strs(&trace), switches: 0 };
+                        let mut out = JobsResult { jobs: results, interleaving_digest: digest_strs(&trace), switches: 0, lib_threads: 0 };
                         for job in &round.jobs {
                             if !out.jobs.iter().any(|j| j.round == ri && j.thread == job.thread) {
                                 out.jobs.push(JobResult { round: ri, thread: job.thread, program: job.program, measured: job.measured, verdict: "abort:deadlock".into(), ..Default::default() });
@@ -379,11 +547,11 @@ pub fn exec_jobs(sc: &C12Scenario, keep_log: bool) -> JobsResult {
             }
         }
     }
-    let (results, trace, switches) = {
+    let (results, trace, switches, lib_threads) = {
         let mut st = sched.m.lock().unwrap();
         st.shutdown = true;
         sched.cv.notify_all();
-        (std::mem::take(&mut st.results), st.trace.clone(), st.switches)
+        (std::mem::take(&mut st.results), st.trace.clone(), st.switches, st.lib_threads_created)
     };
     for h in handles {
         let _ = h.join();
@@ -410,7 +578,7 @@ pub fn exec_jobs(sc: &C12Scenario, keep_log: bool) -> JobsResult {
             }
         }
     }
-    JobsResult { jobs: results, interleaving_digest: digest_strs(&trace), switches }
+    JobsResult { jobs: results, interleaving_digest: digest_strs(&trace), switches, lib_threads }
 }
 
 // ------------------------------------------------------------------------------ C13
